@@ -161,6 +161,10 @@ def relayout_replay(vals, two):
 DIRECTIVES = [
     ("include-angle", "#include <a/b.h>{c}\nint after;\n", lambda d: [i.filename for i in d.includes], ["<a/b.h>"]),
     ("include-quote", "#include \"a b.h\"{c}\nint after;\n", lambda d: [i.filename for i in d.includes], ['"a b.h"']),
+    ("include-tab", "#include\t<a/b.h>{c}\nint after;\n", lambda d: [i.filename for i in d.includes], ["<a/b.h>"]),
+    ("include-space-tab", "#include \t <a/b.h>{c}\nint after;\n", lambda d: [i.filename for i in d.includes], ["<a/b.h>"]),
+    ("include-hash-tab", "#\tinclude  \t\"a b.h\"{c}\nint after;\n", lambda d: [i.filename for i in d.includes], ['"a b.h"']),
+    ("pragma-tab", "#pragma\tpack(push, 1){c}\nint after;\n", lambda d: [[t.value for t in p.content.tokens] for p in d.pragmas], [["pack", "(", "push", ",", "1", ")"]]),
     ("pragma-once", "#pragma once{c}\nint after;\n", lambda d: [[t.value for t in p.content.tokens] for p in d.pragmas], [["once"]]),
     ("pragma-args", "#pragma pack(push, 1){c}\nint after;\n", lambda d: [[t.value for t in p.content.tokens] for p in d.pragmas], [["pack", "(", "push", ",", "1", ")"]]),
     ("hash-space-pragma", "#  pragma once{c}\nint after;\n", lambda d: [[t.value for t in p.content.tokens] for p in d.pragmas], [["once"]]),
